@@ -174,12 +174,13 @@ theorem sortLoop_progress (g : G) (hac : Acyclic g) : ∀ (fuel : Nat) (ns acc :
 /-- PROGRESS of `sorting`: on an acyclic graph whose connection sources are all among the nodes being
     sorted (or marked for removal) a sorted list is always produced (no `ValueError`, no endless loop). -/
 theorem sortFrom_progress (g : G) (pre : List Id) (hac : Acyclic g)
-    (hclosed : ∀ e ∈ g.edges, e.1 ∈ g.wip ∨ e.1 ∈ (if pre = [] then g.nodes else pre)) :
+    (hclosed : ∀ e ∈ g.edges, e.2 ∈ (if pre = [] then g.nodes else pre) →
+      e.1 ∈ g.wip ∨ e.1 ∈ (if pre = [] then g.nodes else pre)) :
     ∃ l, sortFrom g pre = some l := by
   unfold sortFrom
   apply sortLoop_progress g hac _ _ _ (Nat.le_refl _)
-  intro e he _
-  rcases hclosed e he with h | h
+  intro e he h2
+  rcases hclosed e he h2 with h | h
   · exact Or.inl h
   · exact Or.inr (Or.inr h)
 
